@@ -93,12 +93,24 @@ def r13_3(ctx):
     blob = " ".join(str(pc["ret"]) + " ".join(pc["guards"]) for pc in pcs)
     ok = "(1 << (p1 as usize))" in blob and not re.search(r"< 6[0-35-9]\b", blob)
     ctx.ob("R13.3", "smallcharset-contains-tests-bit-n", ok, "contains(n) tests bit n of the 64-bit set")
+    prefix_scan_rule(ctx, "R13.3")
+
+
+def prefix_scan_rule(ctx, rule):
+    """SmallCharSet::nonmember_prefix_len looks at every byte of the text in order: a byte below 64 is asked of the set, a byte
+    >= 64 counts as a non-member and the scan simply goes on to the next byte (no byte is skipped unexamined)"""
     key, pcs = nfq.cells(ctx, AREA, "util::smallcharset::SmallCharSet::nonmember_prefix_len")
     fe = nfq.feasible(pcs)
     asks = [pc for pc in fe if any("contains(" in g for g in pc["guards"])]
     high = [pc for pc in fe if gval(pc["guards"], "(item < 64)") is False]
     ok = bool(asks) and all(gval(pc["guards"], "(item < 64)") is True for pc in asks) and bool(high) and all(any(x.startswith("loop-end(end") for x in nfq.texts(pc)) for pc in high)
-    ctx.ob("R13.3", "prefix-scan-bounds-at-64", ok, "bytes >= 64 are never members: contains() is asked only below 64, a byte >= 64 counts as a non-member and the scan goes on")
+    # ... and it is a plain loop over the bytes of the text: the scan position advances by exactly one per iteration
+    loops = [x for pc in fe for x in nfq.texts(pc) if x.startswith("loop-begin")]
+    plain = bool(loops) and all(re.fullmatch(r"loop-begin for _ in p1\.(bytes\(\)|as_bytes\(\)(\.iter\(\))?)(\.(copied|cloned)\(\))?\(\)", x) for x in loops)
+    ctx.ob(rule, "prefix-scan-bounds-at-64", ok and plain, "every byte is examined in order; contains() is asked only below 64, a byte >= 64 counts as a non-member and the scan goes on" if ok and plain else
+           "nonmember_prefix_len does not examine every byte (loop %s) or asks contains() for a byte >= 64: a member of the set can be skipped over and becomes part of a text run (e.g. the closing quote of an attribute value after certain characters)" % loops[:1])
+
+
 
 
 def run(ctx):
